@@ -74,8 +74,10 @@ class C05(Check):
                         add("adv-struct", True, blocks, [[bros[p] for p in perm]],
                             perm=list(perm))
             else:
-                b3 = (self.bound - 1) if nblocks == 3 else None
                 for counts in itertools.product(range(0, 3), repeat=nblocks):
+                    b3 = (self.bound - 1) if nblocks == 3 else None
+                    if nblocks == 2 and not self.thorough and counts not in ((0, 0), (1, 0), (0, 1), (2, 1)):
+                        b3 = self.bound - 1
                     bros = [[blk(19) for _ in range(c)] for c in counts]
                     add("adv-struct", True, blocks, bros, bound=b3)
                     if any(c == 2 for c in counts):
@@ -139,7 +141,47 @@ class C05(Check):
         return {"configs": kinds, "chunk_sizes": ["fw default min(rem,80)", 1, 7, 255, "rem", "rem+1"]}
 
     def cases(self):
-        return [{"kind": "config", "config": i} for i in range(len(self.configs))]
+        return ([{"kind": "config", "config": i} for i in range(len(self.configs))]
+                + [{"kind": "sequence", "order": o} for o in range(3)])
+
+    def sequence(self, case, stats):
+        """the small configurations one after the other on ONE protocol + dongle object over a
+        conforming device: what the device holds and the replies must equal those obtained on
+        fresh objects (no state may leak from one request into the next)"""
+        import copy
+        from ..simdev.powhsm import PowHsm
+        vs = []
+        cfgs = [c for c in self.configs if c["kind"] in ("adv-struct", "upd-struct", "adv-cb", "adv-field",
+                                                         "upd-field")][::3]
+        if case["order"] == 1:
+            cfgs = cfgs[::-1]
+        elif case["order"] == 2:
+            cfgs = [c for pair in zip(cfgs, cfgs) for c in pair]
+
+        def one(proto, dev, cfg):
+            n = len(dev.held)
+            reply, exc = harness.handle_request(proto, copy.deepcopy(self.request_for(cfg)))
+            held = [(h[0], h[1], [(b["raw"], b["mm_len"], b["cb"], [(x["raw"], x["mm_len"], x["cb"])
+                                                                 for x in b["brothers"]]) for b in h[2]])
+                    for h in dev.held[n:]]
+            return reply, exc, held
+        fresh = []
+        for cfg in cfgs:
+            dev = PowHsm(seed=b"c05-seq")
+            fresh.append(one(harness.make_protocol(World(dev)), dev, cfg))
+        dev = PowHsm(seed=b"c05-seq")
+        proto = harness.make_protocol(World(dev))
+        for k, cfg in enumerate(cfgs):
+            stats.evaluations += 1
+            got = one(proto, dev, cfg)
+            stats.observe(("sequence", case["order"], cfg["kind"], got == fresh[k]), nontrivial=True)
+            if got != fresh[k]:
+                vs.append(Violation("C05", "C05:history-dependence:%s" % cfg["kind"], dict(case, upto=k),
+                                    None, {"position": k, "config": cfg["name"], "reply": got[0],
+                                           "exc": got[1]},
+                                    {"reply_on_fresh_objects": fresh[k][0]}, "history"))
+                break
+        return vs
 
     def request_for(self, cfg):
         if cfg["advance"]:
@@ -151,6 +193,8 @@ class C05(Check):
 
     def run_case(self, case, stats):
         import copy
+        if case["kind"] == "sequence":
+            return self.sequence(case, stats)
         cfg = self.configs[case["config"]]
         req = self.request_for(cfg)
         vs = []
